@@ -241,6 +241,7 @@ def req_bodies(repo):
     rq = Source(repo + '/h3/src/server/request.rs')
     b['resolve_request'] = squeeze(rq.fn_body('resolve_request')[0])
     b['accept_with_frame'] = mask_codes(squeeze(rq.fn_body('accept_with_frame')[0]))
+    b['ResolvedRequest::resolve'] = mask_codes(squeeze(rq.fn_body('resolve')[0]))
     b['struct RequestResolver'] = _block(rq, r'pub\s+struct\s+RequestResolver<C,\s*B>')
     sc = Source(repo + '/h3/src/server/connection.rs')
     b['server accept'] = squeeze(sc.fn_body('accept')[0])
